@@ -85,6 +85,10 @@ def analyze(ctx, body):
                         res['exits'].append({'block': bi, 'idx': si, 'kind': 'const_true', 'ok': ok, 'why': why})
                 else:
                     ts = fn.rvalue_terms(rv, (bi, si))
+                    if ts and all(n[0] == 'call' and n[1] == IS_VALID and len(n[2]) > 1 and _is_param(n[2][1], to) for n in ts):
+                        # `let ok = vc.is_valid(to); ok`: the answer is the verdict on the end state itself
+                        res['exits'].append({'block': bi, 'idx': si, 'kind': 'query_to', 'ok': True, 'why': ''})
+                        continue
                     res['exits'].append({'block': bi, 'idx': si, 'kind': 'other', 'ok': False,
                                          'why': 'returns a computed boolean %s (unrecognised shape)' % fmt_terms(ts)[:80]})
         t = blk['term']
